@@ -101,7 +101,17 @@ func (d *doer) Do(r *http.Request) (*http.Response, error) {
 		fa = len(d.c.Body)
 	}
 	d.body = &faultBody{data: []byte(d.c.Body), faultAt: fa, chunk: d.c.Chunk, closeErr: d.c.CloseErr}
-	return &http.Response{StatusCode: d.c.Status, Body: d.body, Header: http.Header{}}, nil
+	// what net/http reports next to (status, body): the declared length is unknown (-1: chunked,
+	// gunzipped or close-delimited bodies), absent (0, as hand-made stubs leave it) or exact; the
+	// outcome must not depend on it (derived from the case so that replays are exact)
+	cl := int64(0)
+	switch (len(d.c.Body) + d.c.Status) % 3 {
+	case 0:
+		cl = -1
+	case 1:
+		cl = int64(len(d.c.Body))
+	}
+	return &http.Response{StatusCode: d.c.Status, Body: d.body, Header: http.Header{}, ContentLength: cl}, nil
 }
 
 type Obs struct {
